@@ -3,8 +3,8 @@
    driven through AppRunner or web.run_app with instrumented cleanup contexts and
    signal handlers.
 
-   cfg   : entry, failStart, failShut, failClean (lists of step names), siteFails
-   events: [ev |-> kind, n |-> name]
+   cfg   : entry, failStart, failShut, failClean (lists of step names), siteFails, startKind, cleanKind
+   events: [ev |-> kind, n |-> name, k |-> kind of exception for *_fail events: "exc" | "base"]
      user callbacks   enter_begin/enter_done/enter_fail c   exit_begin/exit_done/exit_fail c
                       call h / call_fail h                  (h = Rsu Rsh Rcl Ssu Ssh Scl)
      API results      setup ok|raised   site ok|raised   running ""   cleanup_call ""
@@ -31,17 +31,18 @@ tvars == <<tid, l, m, bad, s>>
 ToSet(q) == {q[i] : i \in 1..Len(q)}
 Callback == {"enter_begin", "enter_done", "enter_fail", "exit_begin", "exit_done", "exit_fail", "call", "call_fail"}
 
-M0 == [entered |-> <<>>, exited |-> <<>>, begun |-> {}, failed |-> {}, setupRes |-> "none",
+\* failed = every step that raised; soft = those that raised a BaseException that is not an Exception
+M0 == [entered |-> <<>>, exited |-> <<>>, begun |-> {}, failed |-> {}, soft |-> {}, setupRes |-> "none",
        cleanupRes |-> "none", result |-> "none", cleanupCalled |-> FALSE, cbs |-> <<>>]
 
 Apply(mm, e) ==
     LET m1 == IF e.ev \in Callback THEN [mm EXCEPT !.cbs = Append(@, <<e.ev, e.n>>)] ELSE mm IN
     CASE e.ev = "enter_begin" -> [m1 EXCEPT !.begun = @ \cup {e.n}]
       [] e.ev = "enter_done" -> [m1 EXCEPT !.entered = Append(@, e.n)]
-      [] e.ev = "enter_fail" -> [m1 EXCEPT !.failed = @ \cup {<<"enter", e.n>>}]
+      [] e.ev = "enter_fail" -> [m1 EXCEPT !.failed = @ \cup {<<"enter", e.n>>}, !.soft = IF e.k = "exc" THEN @ ELSE @ \cup {<<"enter", e.n>>}]
       [] e.ev = "exit_begin" -> [m1 EXCEPT !.exited = Append(@, e.n)]
-      [] e.ev = "exit_fail" -> [m1 EXCEPT !.failed = @ \cup {<<"exit", e.n>>}]
-      [] e.ev = "call_fail" -> [m1 EXCEPT !.failed = @ \cup {<<"call", e.n>>}]
+      [] e.ev = "exit_fail" -> [m1 EXCEPT !.failed = @ \cup {<<"exit", e.n>>}, !.soft = IF e.k = "exc" THEN @ ELSE @ \cup {<<"exit", e.n>>}]
+      [] e.ev = "call_fail" -> [m1 EXCEPT !.failed = @ \cup {<<"call", e.n>>}, !.soft = IF e.k = "exc" THEN @ ELSE @ \cup {<<"call", e.n>>}]
       [] e.ev = "setup" -> [m1 EXCEPT !.setupRes = e.n]
       [] e.ev = "cleanup_call" -> [m1 EXCEPT !.cleanupCalled = TRUE]
       [] e.ev = "cleanup" -> [m1 EXCEPT !.cleanupRes = e.n]
@@ -50,8 +51,12 @@ Apply(mm, e) ==
 
 MEntered(mm) == ToSet(mm.entered)
 MMissing(mm) == {c \in MEntered(mm) : Count(mm.exited, c) = 0}
-MStartupFailed(mm) == \E x \in mm.failed : x[1] = "enter" \/ (x[1] = "call" /\ x[2] \in {"Rsu", "Ssu"})
-MTeardownFailed(mm) == \E x \in mm.failed : x[1] = "exit" \/ (x[1] = "call" /\ x[2] \notin {"Rsu", "Ssu"})
+IsStart(x) == x[1] = "enter" \/ (x[1] = "call" /\ x[2] \in {"Rsu", "Ssu"})
+MStartupFailed(mm) == \E x \in mm.failed : IsStart(x)
+MTeardownFailed(mm) == \E x \in mm.failed : ~IsStart(x)
+\* ... with an ordinary exception (ErrorsSurface and the RunApp shape are stated for those)
+MStartupFailedExc(mm) == \E x \in mm.failed \ mm.soft : IsStart(x)
+MTeardownFailedExc(mm) == \E x \in mm.failed \ mm.soft : ~IsStart(x)
 MTeardownSeen(mm) == \E i \in 1..Len(mm.cbs) :
                         \/ mm.cbs[i][1] \in {"exit_begin"}
                         \/ (mm.cbs[i][1] = "call" /\ mm.cbs[i][2] \notin {"Rsu", "Ssu"})
@@ -62,8 +67,10 @@ FinalClause(mm, c) ==
         runner == c.entry # "RunApp"
     IN
     IF owed /\ miss # {} THEN
-        IF c.entry = "RunApp" /\ MStartupFailed(mm) /\ ~MTeardownSeen(mm)
+        IF c.entry = "RunApp" /\ MStartupFailedExc(mm) /\ ~MTeardownSeen(mm)
             THEN "RunAppStartupFailureSkipsCleanup"
+        ELSE IF c.entry = "RunApp" /\ MStartupFailed(mm) /\ ~MTeardownSeen(mm)
+            THEN "ExactlyOnceIffStarted"      \* start-up ended by cancellation / exit request: same duty
         ELSE IF MStartupFailed(mm) /\ miss \subseteq SubCtx
             THEN "SubAppContextNotExitedAfterFailedStartup"
         ELSE IF ~MStartupFailed(mm) /\ mm.exited = <<>>
@@ -73,9 +80,9 @@ FinalClause(mm, c) ==
                 /\ \E x \in mm.failed : x[1] = "exit" \/ (x[1] = "call" /\ x[2] \in {"Rcl", "Scl"})
             THEN "CleanupErrorSkipsLaterExits"
         ELSE "ExactlyOnceIffStarted"
-    ELSE IF MStartupFailed(mm) /\ ((runner /\ mm.setupRes # "raised") \/ (~runner /\ mm.result # "raised"))
+    ELSE IF MStartupFailedExc(mm) /\ ((runner /\ mm.setupRes # "raised") \/ (~runner /\ mm.result # "raised"))
         THEN "ErrorsSurface"
-    ELSE IF MTeardownFailed(mm) /\ ((runner /\ mm.cleanupRes # "raised") \/ (~runner /\ mm.result # "raised"))
+    ELSE IF MTeardownFailedExc(mm) /\ ((runner /\ mm.cleanupRes # "raised") \/ (~runner /\ mm.result # "raised"))
         THEN "ErrorsSurface"
     ELSE ""
 
@@ -91,7 +98,8 @@ Clause(mm, e, c) ==
 
 \* refinement: user-callback order predicted by the implementation-shaped model
 Predicted(c) ==
-    LET fin == RunToEnd(InitState(c.entry, ToSet(c.failStart), c.siteFails, ToSet(c.failShut), ToSet(c.failClean)))
+    LET fin == RunToEnd(InitState(c.entry, ToSet(c.failStart), c.siteFails, ToSet(c.failShut), ToSet(c.failClean),
+                                  c.startKind, c.cleanKind))
     IN SelectSeq(fin.log, LAMBDA x : x[1] \in Callback)
 
 Info(mm, e, c) ==
@@ -105,7 +113,7 @@ TInit ==
     /\ l = 0
     /\ m = M0
     /\ bad = ""
-    /\ s = InitState("Runner", {}, FALSE, {}, {})      \* the model's own variable is not used here
+    /\ s = InitState("Runner", {}, FALSE, {}, {}, "exc", "exc")      \* the model's own variable is not used here
     /\ Verdict(tid, 0, "", <<"", "">>)
 
 TNext ==
